@@ -258,6 +258,10 @@ func cmdCheck(argv []string) int {
 	}
 	writeEvidence(vd, id, prop, *tier, *seed, eng, results, stats, nViol, len(knownLines), inconcl, replayed, reproduced, start)
 	if *verbose {
+		initSteps.Range(func(k, v interface{}) bool {
+			fmt.Printf("  init steps %-50s %d\n", k, *v.(*int64))
+			return true
+		})
 		queryStats.Range(func(k, v interface{}) bool {
 			a := v.(*[3]int64)
 			fmt.Printf("  queries %-20s unsat=%d sat=%d unknown=%d\n", k, a[0], a[1], a[2])
